@@ -8,11 +8,16 @@ correspondence (model = Model/C09Labels.lean, Model/C09Tpm.lean, C10's parser of
   * the real get_samples_from_yaml on generated YAML files (labels: strings or other scalars);
   * the real FileNameGrouper.__init__ (+ get_group_id calls) with a filled and with an empty sample dictionary;
   * the real convert_counts_to_tpm of a grouped counter on written count files (values, error on ragged rows);
-  * the real split_read_group_table on samples of 2-3 BAM files with reads aligned on several chromosomes.
+  * the real split_read_group_table on samples of 2-3 BAM files with reads aligned on several chromosomes, user tables in
+    four layouts (read ids starting with '#', groups that are empty / blank-padded / contain a tab), and the dictionary the
+    collector of each chromosome reads back from its file (create_read_grouper -> read_map; model loadSplitTable);
+  * the dump of <save>_<chr>_groups and its re-reading by --resume (the real statements of collect_reads_in_parallel).
 oracle (no model): a read of file i is grouped under the documented label of file i (the label given for it, else the
   base name without its last extension), two files share a group only when their labels are equal; every grouped TPM
   column with a positive sum sums to 10^6, a zero column stays zero, ratios within a column are those of the counts;
-  every read keeps its table group on every chromosome it has a BAM record on.
+  every read keeps its table group on every chromosome it has a BAM record on (the group of the user's table, verbatim);
+  a YAML label that is not a string is a group (its printed value); the set of groups recorded for a chromosome survives
+  the _groups file (names without a newline).
 """
 import contextlib
 import io
@@ -46,6 +51,8 @@ def _ids():
 
 def _rg():
     vlib.repo_on_path()
+    import logging
+    logging.getLogger("IsoQuant").disabled = True
     import src.read_groups as RG
     return RG
 
@@ -146,7 +153,10 @@ def list_cases(rng, quick):
 
 
 def yaml_cases(rng, quick):
-    cases = []
+    # always present: labels that are YAML integers (`labels: [1, 2]`), alone and mixed with strings
+    cases = [{"prefix": "S", "entries": [{"name": "E", "files": ["/w/a.bam", "/w/b.bam"], "labels": [1, 2]}]},
+             {"prefix": "S", "entries": [{"name": "E1", "files": ["/w/a.bam"], "labels": ["rep"]},
+                                         {"name": "E2", "files": ["/w/a.bam", "/w/c.x.bam", "/w/d.bam"], "labels": [10, "1", 1]}]}]
     for _ in range(100 if quick else 1000):
         entries = []
         names = ["E1", "E2", "E3", "E1", "S0", "S1"]
@@ -352,9 +362,35 @@ def tpm_close(model_rows, real_rows):
 # ----------------------------------------------------------------------------------------------------------------
 # multi-file split tables
 
+# table layouts of `--read_group file:TABLE:READ_COL:GROUP_COL:DELIM`: (delimiter, read column, group column, line template)
+SPLIT_LAYOUTS = [("\t", 0, 1, "{r}\t{g}"), ("\t", 0, 1, "{r}\t{g}\tx"), (",", 1, 0, "{g},{r},extra"), (";", 2, 1, "x;{g};{r}")]
+# group texts that the user-table parser would alter when the per-chromosome file is re-read with it: blanks at the outer
+# ends (a group column that is not the last / first one keeps them), the empty group, a tab inside (delimiter not a tab),
+# a leading '#', unicode white space
+UNCLEAN_GROUPS = ["gA", "gB ", " g C", "", "g\tD", "NA", "#g", "g\x0bE\x0b", "gA  "]
+
+
+def doc_table_map(lines, delim, rc, gc):
+    """the table as documented (docs/cmd.md, --read_group file:...): lines starting with '#' and blank lines are skipped,
+    a row names the read in column rc and its group in column gc, a later row of the same read wins"""
+    m = {}
+    for line in lines:
+        l = line.strip()
+        if not l or l.startswith("#"):
+            continue
+        cols = l.split(delim)
+        if len(cols) > max(rc, gc):
+            m[cols[rc]] = cols[gc]
+    return m
+
+
 def split_case(rng, i):
     nfiles = rng.choice([1, 2, 2, 3])
+    layout = rng.choice([0, 1, 2, 2, 3])
+    delim, rc, gc, tmpl = SPLIT_LAYOUTS[layout]
     names = ["q%d" % j for j in range(rng.randint(2, 9))]
+    # '#' is a legal first character of a BAM read name
+    names = [("#" + nm if rng.random() < 0.3 else nm) for nm in names] + ["#hash"]
     files = [[] for _ in range(nfiles)]
     for nm in names:
         for _ in range(rng.choice([1, 2, 2, 3])):
@@ -362,15 +398,17 @@ def split_case(rng, i):
     # one read that certainly has records on both chromosomes, the chr2 record first in file order of file 0
     files[0].append(["multi", "chr2", 50])
     files[-1].append(["multi", "chr1", 60])
-    groups = ["gA", "gB", "g C", "NA"]
-    table = [[nm, rng.choice(groups)] for nm in names + ["multi"] if nm == "multi" or rng.random() < 0.8]
+    groups = [g for g in UNCLEAN_GROUPS if delim not in g]
+    table = [[nm, rng.choice(groups)] for nm in names + ["multi"] if nm in ("multi", "#hash") or rng.random() < 0.8]
     table.append(["ghost", "gZ"])
-    return {"files": files, "table": table, "unmapped": rng.random() < 0.5, "seed": i}
+    lines = ["# read\tgroup"] + [tmpl.format(r=r, g=g) for r, g in table]
+    return {"files": files, "lines": lines, "layout": layout, "unmapped": rng.random() < 0.5, "seed": i}
 
 
 def run_split_case(case, tmp):
     """writes the BAMs and the table, runs the real split_read_group_table; returns (alignments in the order the real
-    code reads them, loaded table, {chr: lines of the per-chromosome file}, {chr: {read: group by the real grouper}})"""
+    code reads them, loaded table, {chr: lines of the per-chromosome file}, {chr: {read: group by the real grouper}},
+    {chr: raw text of the per-chromosome file}, {chr: read_map of the grouper create_read_grouper builds for chr})"""
     import pysam
     from gen import synth
     RG = _rg()
@@ -385,33 +423,52 @@ def run_split_case(case, tmp):
         if case["unmapped"] and i == 0:
             ds.add_read("unm", None, 0, "", flag=4)
         paths.append(ds.write(d, bam_name="in%d.bam" % i, write_ref=False)["bam"])
+    delim, rc, gc, _ = SPLIT_LAYOUTS[case.get("layout", 0)]
     tf = os.path.join(d, "tab.tsv")
     with open(tf, "w", newline="\n") as f:
-        f.write("# read\tgroup\n")
-        f.write("".join("%s\t%s\n" % (r, g) for r, g in case["table"]))
+        if "lines" in case:
+            f.write("".join(l + "\n" for l in case["lines"]))
+        else:                                     # replay files written before the layouts existed
+            f.write("# read\tgroup\n")
+            f.write("".join("%s\t%s\n" % (r, g) for r, g in case["table"]))
     sample = _NS(file_list=[[p] for p in paths], read_group_file=os.path.join(d, "rg"))
-    RG.split_read_group_table(tf, sample, 0, 1, "\t")
+    RG.split_read_group_table(tf, sample, rc, gc, delim)
     alns = []
     for p in paths:
         with pysam.AlignmentFile(p, "rb") as bam:
             alns += [[a.query_name, a.reference_name] for a in bam]
-    table = [[k, v] for k, v in RG.load_table(tf, 0, 1, "\t").items()]
-    real_lines, got = {}, {}
+    table = [[k, v] for k, v in RG.load_table(tf, rc, gc, delim).items()]
+    real_lines, got, raw, maps = {}, {}, {}, {}
     for chrom in ("chr1", "chr2"):
-        with open(os.path.join(d, "rg_" + chrom)) as f:
-            real_lines[chrom] = f.read().split("\n")[:-1]
-        g = RG.create_read_grouper(_NS(read_group="file:" + tf), sample, chrom)
+        with open(os.path.join(d, "rg_" + chrom), newline="") as f:
+            raw[chrom] = f.read()
+        real_lines[chrom] = raw[chrom].split("\n")[:-1]
+        try:
+            with contextlib.redirect_stdout(io.StringIO()):
+                g = RG.create_read_grouper(_NS(read_group="file:%s:%d:%d:%s" % (tf, rc, gc, delim)), sample, chrom)
+        except Exception as ex:                   # the collector of this chromosome would die: reported as `abort`
+            maps[chrom] = dict(_err(ex), detail="%s: %s" % (type(ex).__name__, ex))
+            got[chrom] = None
+            continue
+        maps[chrom] = [[k, v] for k, v in g.read_map.items()]
         got[chrom] = {nm: g.get_group_id(_FakeAln(nm)) for nm, c in alns if c == chrom}
     shutil.rmtree(d, ignore_errors=True)
-    return alns, table, real_lines, got
+    return alns, table, real_lines, got, raw, maps
 
 
 def check_split_case(case, tmp):
     """the property on the real code: every read keeps its table group on every chromosome it is aligned on"""
-    alns, table, _, got = run_split_case(case, tmp)
-    doc = dict(case["table"])
+    alns, table, _, got, _, maps = run_split_case(case, tmp)
+    if "lines" in case:
+        delim, rc, gc, _ = SPLIT_LAYOUTS[case["layout"]]
+        doc = doc_table_map(case["lines"], delim, rc, gc)
+    else:
+        doc = dict(case["table"])
     res = []
     for chrom, m in got.items():
+        if m is None:
+            return [("abort", "the read grouper of %s cannot be built from the per-chromosome table written by "
+                     "split_read_group_table: %s" % (chrom, maps[chrom].get("detail")))]
         for nm, g in m.items():
             want = doc.get(nm, "NA")
             if g != want:
@@ -419,6 +476,151 @@ def check_split_case(case, tmp):
                             (nm, g, chrom, want, [c for n, c in alns if n == nm])))
                 return res
     return res
+
+
+def shrink_split_case(case, tmp):
+    """smallest table / read set on which the failure persists (drop rows, then BAM records)"""
+    if "lines" not in case:
+        return case
+    cur = case
+    changed = True
+    while changed:
+        changed = False
+        for i in range(1, len(cur["lines"])):
+            c2 = dict(cur, lines=cur["lines"][:i] + cur["lines"][i + 1:])
+            if check_split_case(c2, tmp):
+                cur, changed = c2, True
+                break
+        if changed:
+            continue
+        for fi, fl in enumerate(cur["files"]):
+            for i in range(len(fl)):
+                if sum(len(x) for x in cur["files"]) <= 1:
+                    break
+                c2 = dict(cur, files=[x if k != fi else x[:i] + x[i + 1:] for k, x in enumerate(cur["files"])])
+                if all(c2["files"]) and check_split_case(c2, tmp):
+                    cur, changed = c2, True
+                    break
+            if changed:
+                break
+    return dict(cur, unmapped=False) if check_split_case(dict(cur, unmapped=False), tmp) else cur
+
+
+def real_split_map(content, tmp):
+    """read_map of the grouper that create_read_grouper builds for a per-chromosome file with the given text"""
+    RG = _rg()
+    d = tempfile.mkdtemp(prefix="splitmap_", dir=tmp)
+    try:
+        with open(os.path.join(d, "rg_chrQ"), "w", newline="") as f:
+            f.write(content)
+        try:
+            with contextlib.redirect_stdout(io.StringIO()):
+                g = RG.create_read_grouper(_NS(read_group="file:x"), _NS(read_group_file=os.path.join(d, "rg")), "chrQ")
+        except (ValueError, IndexError) as ex:
+            return _err(ex)
+        return [[k, v] for k, v in g.read_map.items()]
+    finally:
+        shutil.rmtree(d, ignore_errors=True)
+
+
+# ---- the `_groups` file of a chromosome (src/dataset_processor.py collect_reads_in_parallel) ---------------------------
+
+GROUP_FILE_NAMES = ["cellA", "cell A ", " cell B", "", " ", "a\tb", "\tlead", "trail\t", "NA", "x\x0b", "\xa0nbsp", "a\rb", "cr\r",
+                    " ls", "#c", "10", "é中"]
+
+
+def groups_file_cases(rng, quick):
+    """lists of distinct group names without a newline (BAM tag values, table entries, file labels, read id suffixes)"""
+    cases = [[g] for g in GROUP_FILE_NAMES] + [[]]
+    for _ in range(40 if quick else 400):
+        k = rng.randint(1, 8)
+        c = []
+        for _ in range(k):
+            if rng.random() < 0.6:
+                g = rng.choice(GROUP_FILE_NAMES)
+            else:
+                g = "".join(rng.choice("ab \t\r\x0b\x85#_") for _ in range(rng.randint(0, 5)))
+            if g not in c:
+                c.append(g)
+        cases.append(c)
+    return cases
+
+
+class _OrderedSet(dict):
+    """stands for `read_grouper.read_groups` (a set) with a known iteration order"""
+    def add(self, x):
+        self[x] = None
+
+
+_GF_CODE = {}
+
+
+def _groups_file_code():
+    """(dump statement, statements of the --resume branch that re-read the dump) of collect_reads_in_parallel, compiled from
+    the source of the tree under test: the `with open(group_file, "w" ...)` block at function level, and — inside
+    `if os.path.exists(lock_file) and args.resume:` / `if os.path.exists(group_file) and ...:` — `read_groups.clear()`
+    plus every statement that mentions `group_file`"""
+    import ast
+    path = os.path.join(vlib.REPO, "src", "dataset_processor.py")
+    if path in _GF_CODE:
+        return _GF_CODE[path]
+    with open(path) as f:
+        tree = ast.parse(f.read())
+    fn = [n for n in tree.body if isinstance(n, ast.FunctionDef) and n.name == "collect_reads_in_parallel"]
+    if len(fn) != 1:
+        raise RuntimeError("collect_reads_in_parallel not found in " + path)
+    fn = fn[0]
+
+    def mentions(node, name):
+        return any(isinstance(n, ast.Name) and n.id == name for n in ast.walk(node))
+
+    writer = [st for st in fn.body if isinstance(st, ast.With) and mentions(st, "group_file")]
+    reader = []
+    for st in fn.body:
+        if isinstance(st, ast.If) and mentions(st.test, "lock_file"):
+            for st2 in st.body:
+                if isinstance(st2, ast.If) and mentions(st2.test, "group_file"):
+                    reader = [x for x in st2.body if mentions(x, "group_file") or
+                              (mentions(x, "read_grouper") and any(isinstance(n, ast.Attribute) and n.attr == "clear" for n in ast.walk(x)))]
+    if len(writer) != 1 or not reader:
+        raise RuntimeError("the dump / re-read statements of the _groups file were not found in collect_reads_in_parallel")
+    mk = lambda body, nm: compile(ast.fix_missing_locations(ast.Module(body=body, type_ignores=[])), nm, "exec")
+    _GF_CODE[path] = (mk(writer, "<groups dump>"), mk(reader, "<groups re-read>"))
+    return _GF_CODE[path]
+
+
+def real_groups_file(groups, tmp):
+    """the real dump statement on a `read_groups` set iterated in the order `groups`, then the real re-read statements:
+    {"content": text of the file, "reread": sorted re-read set}"""
+    wcode, rcode = _groups_file_code()
+    gf = os.path.join(tmp, "aux_chrQ_groups")
+    rg = _OrderedSet()
+    for g in groups:
+        rg.add(g)
+    ns = {"os": os, "group_file": gf, "read_grouper": _NS(read_groups=rg)}
+    exec(wcode, ns)
+    with open(gf, newline="") as f:
+        content = f.read()
+    back = _OrderedSet()
+    back.add("stale")                       # the branch clears the grouper's set first
+    ns = {"os": os, "group_file": gf, "read_grouper": _NS(read_groups=back)}
+    exec(rcode, ns)
+    os.remove(gf)
+    return {"content": content, "reread": sorted(back)}
+
+
+def check_groups_file(groups, tmp):
+    """the property: the universe of a resumed run equals the recorded one (group names without a newline)"""
+    if any("\n" in g for g in groups):
+        return []
+    r = real_groups_file(groups, tmp)
+    if r["reread"] != sorted(groups):
+        lost = sorted(set(groups) - set(r["reread"]))
+        new = sorted(set(r["reread"]) - set(groups))
+        return [("groups_file_roundtrip", "groups %r were recorded for a chromosome; --resume re-reads %r from the _groups "
+                 "file (lost %r, invented %r): reads of a lost group raise KeyError in the counters, invented groups become "
+                 "extra columns" % (sorted(groups), r["reread"], lost, new))]
+    return []
 
 
 # ----------------------------------------------------------------------------------------------------------------
@@ -478,7 +680,9 @@ def check_yaml_case(case, tmp):
         e = es[0]
         rd = dict(map(tuple, s["readable"]))
         for i, f in enumerate(e["files"]):
-            want = e["labels"][i] if e["labels"] is not None else doc_label_of_path(f)
+            # a label is the group of its file; a YAML scalar that is not a string is read as its printed value
+            want = (e["labels"][i] if isinstance(e["labels"][i], str) else str(e["labels"][i])) \
+                if e["labels"] is not None else doc_label_of_path(f)
             got = rd.get(f)
             if f not in rd:
                 res.append(("wrong_group", "experiment %s: file %s has no label" % (s["name"], f)))
@@ -603,15 +807,6 @@ def correspondence(ctx, tmp):
         ctx.evaluations += 1
         ctx.count("op:labels_yaml")
         ctx.traces_validated += 1
-        if isinstance(mo, dict) and mo.get("non_string_label"):
-            # the model refuses to call a non-string a label; the real parser stores it (or exits for another reason)
-            ctx.count("labels_yaml:non_string_label")
-            ok = vlib.is_err(io_) or any(not isinstance(v, str) for s in io_ for _, v in s["readable"]) or \
-                all(e["files"] is None or not e["files"] or e["labels"] is None or all(isinstance(x, str) for x in e["labels"])
-                    for e in c["entries"] if e["files"])
-            if not ok:
-                ctx.disagree("labels_yaml", c, mo, io_)
-            continue
         if not vlib.same(mo, io_):
             ctx.disagree("labels_yaml", c, mo, io_)
         elif not vlib.is_err(mo) and any(len(s["readable"]) > 1 for s in mo):
@@ -646,20 +841,33 @@ def correspondence(ctx, tmp):
     lines, meta = [], []
     for i in range(n):
         sc = split_case(rng, rng.randrange(10 ** 5))
-        alns, table, real_lines, _ = run_split_case(sc, tmp)
+        alns, table, real_lines, _, raw, maps = run_split_case(sc, tmp)
         for chrom in ("chr1", "chr2"):
             lines.append(req("split_table", map=table, chr=chrom, alns=alns))
-            meta.append(({"map": table, "chr": chrom, "alns": alns}, real_lines[chrom]))
+            meta.append(("split_table_multi", {"map": table, "chr": chrom, "alns": alns}, real_lines[chrom]))
+            # the per-chromosome file as the collector of that chromosome reads it (create_read_grouper -> read_map)
+            lines.append(req("load_split_table", content=raw[chrom]))
+            meta.append(("load_split_table", {"content": raw[chrom]}, maps[chrom]))
+    for content in ["", "r\tg", "r\tg\n\n", "r\n", "a\tb\tc\n#r\t \n#r\t\n", "r\tg\r\nq\t\x0bg \n"]:
+        lines.append(req("load_split_table", content=content))
+        meta.append(("load_split_table", {"content": content}, real_split_map(content, tmp)))
     outs = drv.run(lines)
-    for (kw, io_), mo in zip(meta, outs):
-        cmp("split_table_multi", kw, mo, io_, bool(mo))
+    for (op, kw, io_), mo in zip(meta, outs):
+        if vlib.is_err(mo) and vlib.is_err(io_) and mo.get("error") == io_.get("exc"):
+            io_ = dict(io_, exc=mo.get("exc"))         # same exception class (the C09 driver names it in "error")
+        cmp(op, kw, mo, io_, bool(mo) and not vlib.is_err(mo))
+    # 8. the `_groups` file of a chromosome: the real dump statement and the real statement of the --resume branch
+    gcs = groups_file_cases(rng, quick)
+    outs = drv.run([req("groups_file", groups=c) for c in gcs])
+    for c, mo in zip(gcs, outs):
+        io_ = real_groups_file(c, tmp)
+        cmp("groups_file", {"groups": c}, mo, io_, not vlib.is_err(mo) and len(mo["reread"]) > 1)
 
 
 def oracle(ctx, disagreements, tmp):
     rng = ctx.rng
     quick = ctx.tier == "quick"
     n = 0
-    listed = {e.get("kind") for e in vlib.load_known_findings().get("findings", []) if e.get("property") == "C09"}
     for d in disagreements:
         inp = d["input"]
         try:
@@ -675,29 +883,55 @@ def oracle(ctx, disagreements, tmp):
         n += 1
         for kind, det in check_cmd_case(c):
             ctx.fail(kind, {"what": "labels_cmd", "case": c}, det)
-    pending = None
+    nfail = {}
     for c in yaml_cases(rng, quick):
         n += 1
         for kind, det in check_yaml_case(c, tmp):
-            if kind == "file_label_not_string" and kind not in listed:
-                pending = pending or det          # a finding of this increment that is not (yet) listed: reported as a note
-                continue
             small = {"prefix": c["prefix"], "entries": [e for e in c["entries"] if e["labels"] and any(not isinstance(x, str) for x in e["labels"])][:1]} \
                 if kind == "file_label_not_string" else c
             if kind == "file_label_not_string" and not any(k == kind for k, _ in check_yaml_case(small, tmp)):
                 small = c
-            ctx.fail(kind, {"what": "labels_yaml", "case": small}, det)
-    if pending:
-        ctx.notes.append("PENDING-FINDING property=C09 kind=file_label_not_string (not in known_findings.json): " + pending)
+            nfail["yaml"] = nfail.get("yaml", 0) + 1
+            if nfail["yaml"] <= 2:
+                ctx.fail(kind, {"what": "labels_yaml", "case": small}, det)
+            else:
+                ctx.count("oracle:labels_yaml:further_failures")
     for c in tpm_cases(rng, quick):
         n += 1
         for kind, det in check_tpm_case(c, tmp):
             ctx.fail(kind, {"what": "grouped_tpm", "case": c}, det)
-    for i in range(4 if quick else 24):
+    shrunk = 0
+    for i in range(6 if quick else 40):
         sc = split_case(rng, rng.randrange(10 ** 5))
         n += 1
         for kind, det in check_split_case(sc, tmp):
-            ctx.fail(kind, {"what": "split_table", "case": sc}, det)
+            if shrunk < 1:
+                shrunk += 1
+                sc = shrink_split_case(sc, tmp)
+                det = (check_split_case(sc, tmp) or [(kind, det)])[0][1]
+            nfail["split"] = nfail.get("split", 0) + 1
+            if nfail["split"] <= 3:
+                ctx.fail(kind, {"what": "split_table", "case": sc}, det)
+            else:
+                ctx.count("oracle:split_table:further_failures")
+    # the `_groups` file written at the end of read collection and re-read by --resume: every group name without a
+    # newline survives
+    shrunk = 0
+    for c in groups_file_cases(rng, quick):
+        n += 1
+        for kind, det in check_groups_file(c, tmp):
+            if shrunk < 1:
+                shrunk += 1
+                for g in c:
+                    if check_groups_file([g], tmp):
+                        c = [g]
+                        det = check_groups_file(c, tmp)[0][1]
+                        break
+            nfail["groups"] = nfail.get("groups", 0) + 1
+            if nfail["groups"] <= 2:
+                ctx.fail(kind, {"what": "groups_file", "groups": c}, det)
+            else:
+                ctx.count("oracle:groups_file:further_failures")
     return n
 
 
@@ -715,6 +949,8 @@ def replay(ctx, failure):
             return any(k == kind for k, _ in check_tpm_case(inp["case"], tmp))
         if what == "split_table":
             return any(k == kind for k, _ in check_split_case(inp["case"], tmp))
+        if what == "groups_file":
+            return any(k == kind for k, _ in check_groups_file(inp["groups"], tmp))
     finally:
         shutil.rmtree(tmp, ignore_errors=True)
     return None
